@@ -25,17 +25,21 @@ func init() {
 		ID:    "C16",
 		Level: "exploration",
 		Rule: "case = (structured rule description, rendering style) or (description, base rendering, delimiter occurrence, delete|duplicate); " +
-			"descriptions: target axis (every 1-2 element target list over 14 targets + 5 exclusions; thorough: + triples) x 2 operators, " +
-			"operator axis (every argument string up to length 3 (thorough 4) over {a,space,\",\\,',comma,colon,@,!} x negation), " +
-			"action axis (id/phase/disruptive head x 1-2 value-carrying actions over 10 text values, in both positions) x {SecRule, SecAction}; " +
-			"styles: token layer = directive case(3) x action-name case(3) x value quoting(2) x comma spacing(2) for every description, " +
-			"layout layer = every set of <=2 continuations over all token boundaries x indentation(2) x CRLF(2) x comment/blank lines(2) x placement(inline, Include, nested quoted Include in a sub directory, glob Include) x final newline(2) for the designated descriptions, " +
-			"plus a 70 kB comment line; every evaluation compiles the text with the real parser and runs the probe battery; " +
+			"descriptions: target axis (every 1-2 element target list over 14 targets + 5 exclusions; thorough: + triples) x 2 operators (thorough 3), " +
+			"operator axis (every argument string up to length 3 (thorough 4) over {a,space,\",\\,',comma,colon,@,!}, negated too up to length 2 (thorough: all), plus a second rule shape up to length 2 (thorough: all)), " +
+			"action axis (id/phase/disruptive head x 1-2 value-carrying actions over 10 text values, in both positions; redirect targets) x {SecRule, SecAction}; " +
+			"styles: token layer = directive case(3) x action-name case(3) x value quoting(2) x comma spacing(2) for action-axis descriptions (quick: the two sub-products case x case and quoting x spacing; other axes: directive case + one all-non-canonical style), " +
+			"5 fixed layout styles for every description, and for every designated description (quick: each 120th/150th/700th of the target/action/operator axis, thorough: each 40th/50th/233rd) the whole layout layer = " +
+			"every set of <=2 continuations over all token boundaries x indentation(2) x CRLF(2) x comment/blank lines(2) x placement(inline, Include, nested quoted Include in a sub directory, glob Include) x final newline(2), a 70 kB comment line in every placement (thorough: + full token layer x reduced layout layer); " +
+			"near-misses: every delimiter occurrence of the varied component and of the directive's top level (argument spaces, operator/action-list quotes, continuations, the newline after the rule) deleted and duplicated in the canonical rendering (thorough: also in a continued, fully quoted rendering) + a continuation on the last line; " +
+			"every evaluation compiles the text with the real parser and runs the probe battery; " +
 			"distinct_nontrivial = distinct configuration texts that differ from the canonical rendering of their description",
 		Assumptions: []string{
 			"the model (secmodel) covers ARGS_GET and REQUEST_HEADERS targets, @streq/@rx, and the actions id, phase, pass, log, deny, status, redirect, msg, logdata, tag, severity, setvar, t:none/lowercase, rev, ver; rule text outside this vocabulary is not enumerated",
 			"operator arguments with outer spaces or an odd run of backslashes before a quote/at the end, and action values containing a backslash, have no spelling and are skipped (counted as unrepresentable_descriptions)",
 			"blank and comment lines are ignored everywhere (also inside a continued line), as the parser documents; a missing space between the quoted operator and the quoted action list is tolerated",
+			"a near-miss that compiles to exactly the rules it was derived from is tolerated (nothing altered); near-misses of a description whose own canonical rendering already fails are not generated",
+			"not asserted (skipped_unspecified): text after the closing quote of an action value, a quote inside an unquoted value or key, rules without id",
 		},
 		Run:    run,
 		Replay: replay,
@@ -175,7 +179,7 @@ func stylesFor(axis string, n int, d Desc, thorough bool, emit func(Style)) {
 		for pl := 0; pl < 4; pl++ {
 			emit(Style{LongLine: 1, Place: pl})
 		}
-		if thorough {
+		if thorough && axis != "operator" {
 			// token layer x reduced layout layer
 			tokenStyles(true, func(t Style) {
 				layoutStyles(t, [][]int{{0, nb - 1}}, emit)
@@ -191,8 +195,8 @@ func stylesFor(axis string, n int, d Desc, thorough bool, emit func(Style)) {
 	}
 }
 
-func nearMissBases(d Desc, thorough bool) []Style {
-	if !thorough {
+func nearMissBases(axis string, d Desc, thorough bool) []Style {
+	if !thorough || axis == "operator" {
 		return []Style{{}}
 	}
 	nb := boundaries(d)
@@ -284,7 +288,7 @@ func checkDesc(c *runner.Ctx, axis string, n int, d Desc) {
 		c.Count("descriptions_without_near_misses", 1)
 		return
 	}
-	for _, st := range nearMissBases(d, c.Thorough()) {
+	for _, st := range nearMissBases(axis, d, c.Thorough()) {
 		if c.Expired() {
 			return
 		}
